@@ -66,7 +66,7 @@ def units(tier, seed):
             out.append(dict(kind="acl", cls=cls, platform=plat, first=None))
             for a in range(len(ALPHABET)):
                 out.append(dict(kind="acl", cls=cls, platform=plat, first=a))
-        for via in ("line", "items"):
+        for via in ("line", "items", "addrgroups:\t", "addrgroups:  "):
             out.append(dict(kind="ag", platform=plat, via=via))
     return out
 
@@ -205,6 +205,18 @@ def check_ag(platform, via, lines, ctx):
         try:
             if via == "line":
                 obj = AddrGroup(head + "\n" + "\n".join(" " + ln for ln in lines), platform=platform)
+            elif via.startswith("addrgroups:"):
+                import cisco_acl
+
+                ind = via[11:]
+                got_ = cisco_acl.addrgroups("hostname X\n" + head + "\n" + "\n".join(ind + ln for ln in lines)
+                                            + "\ninterface Ethernet1\n" + ind + "description x\n",
+                                            platform=platform)
+                if len(got_) != 1:
+                    if "valid" in kinds:
+                        ctx.viol("addrgroups:group_lost", case, [g.name for g in got_], ["G"])
+                    return
+                obj = got_[0]
             else:
                 obj = AddrGroup(name="G", items=list(lines), platform=platform)
             failed = None
